@@ -97,6 +97,8 @@ def same(name, a, b):
         return False
     if name == "UnitQuaternion":
         return bool(np.max(np.abs(a - b)) <= 1e-12)
+    if LOOSE_RUN[0] and name in LOOSE:
+        return bool(np.max(np.abs(a - b)) <= 1e-12)
     return bool(np.array_equal(a, b))
 
 
@@ -125,10 +127,14 @@ NEGATIVE = {"append_other", "append_multi", "insert_other", "insert_multi", "set
             "extend_other", "append_array"}
 
 
+LOOSE_RUN = [False]
+
+
 def check_case(case):
     name = case["cls"]
     cls = get_class(name)
     out = []
+    LOOSE_RUN[0] = case["start"][0] == "loose"
     counter = [100]
 
     def fresh():
@@ -146,6 +152,15 @@ def check_case(case):
     elif kind == "default":
         obj = cls() if not name.startswith("Spatial") else cls(ident(name))
         model = [ident(name)]
+    elif kind == "loose":
+        # values as the library's own operators produce them: valid members to ~1e-13 only, stored without
+        # re-validation (check=False), e.g. a product of several rotations or an interpolated pose
+        if name not in LOOSE:
+            return out
+        model = [elem(name, k) * (1.0 + 6e-14) if name != "SE2" and name != "SE3" else _loose_se(elem(name, k)) for k in range(n)]
+        obj = cls([m.copy() for m in model], check=False) if name != "UnitQuaternion" else cls([m.copy() for m in model], norm=False, check=False)
+        if name == "UnitQuaternion":
+            obj.data = [m.copy() for m in model]
     else:
         model = [elem(name, k) for k in range(n)]
         obj = make(name, model)
@@ -262,7 +277,7 @@ def check_case(case):
         elif o == "ctor_list":
             if len(model) > 0:
                 try:
-                    parts = [make(name, [m]) for m in model]
+                    parts = [obj[i] for i in range(len(model))] if LOOSE_RUN[0] else [make(name, [m]) for m in model]
                     obj = cls(parts)
                 except Exception as e:  # noqa
                     out.append(V(site + "/raised", "construction from a list of %d objects raised %r" % (len(model), e), **feats))
@@ -306,6 +321,15 @@ def check_case(case):
         if out and len(out) > 8:
             return out
     return out
+
+
+LOOSE = ("SO2", "SE2", "SO3", "SE3", "UnitQuaternion")
+
+
+def _loose_se(T):
+    T = T.copy()
+    T[:-1, :-1] *= (1.0 + 6e-14)
+    return T
 
 
 def _inrange(i, n):
@@ -401,6 +425,7 @@ def op_strategy():
 
 def start_strategy():
     return st.one_of(st.tuples(st.just("alloc"), st.integers(0, 4)), st.tuples(st.just("list"), st.integers(1, 4)),
+                     st.tuples(st.just("loose"), st.integers(1, 4)),
                      st.just(("empty", 0)), st.just(("default", 1))).map(list)
 
 
@@ -424,6 +449,10 @@ def gen_slices(tier):
 
 
 def gen_indices(tier):
+    for name in LOOSE:
+        for n in range(1, 5):
+            for o in (["get", -1], ["get", 0], ["slice", 1, None, None], ["slice", None, None, -1], ["iter"], ["pop", None], ["pop", 0], ["copy"], ["ctor_list"]):
+                yield {"kind": "ops", "cls": name, "start": ["loose", n], "ops": [o, ["iter"]]}
     for name in CLASSES:
         for n in range(0, 6):
             start = ["list", n] if n > 0 else ["empty", 0]
